@@ -56,6 +56,7 @@ func (k Keeper) handleBridgeHook(ctx sdk.Context, data []byte, hookMaxGas uint64
 
 	// use cache context from here to avoid resetting sequencer number on failure
 	cacheCtx, commit := ctx.CacheContext()
+	events := sdk.EmptyEvents()
 	for _, msg := range tx.GetMsgs() {
 		handler := k.router.Handler(msg)
 		if handler == nil {
@@ -63,14 +64,22 @@ func (k Keeper) handleBridgeHook(ctx sdk.Context, data []byte, hookMaxGas uint64
 			return
 		}
 
-		_, err = handler(cacheCtx, msg)
+		res, err := handler(cacheCtx, msg)
 		if err != nil {
 			reason = fmt.Sprintf("Failed to execute Msg: %s", err)
 			return
 		}
+
+		events = append(events, res.GetEvents()...)
 	}
 
 	commit()
+
+	// the msg service router runs every handler with a fresh event manager and
+	// returns its events only in the result; pass them on (as ExecuteMessages
+	// does), otherwise e.g. a token withdrawal initiated by a hook burns the
+	// tokens and takes an L2 sequence but is never announced to the executor.
+	ctx.EventManager().EmitEvents(events)
 	success = true
 
 	return
